@@ -77,7 +77,7 @@ CHECKS = {
             'query of C27.', '6 C09'),
     'C10': (TV, 'A', 'SMT/SAT equivalence of the real cardinality CNF against pseudo-Boolean reference; '
                      'definability closure for exists-aux; uniqueness miter',
-            'For every n<=10 (thorough 24), k<=n+3, EQ/LT/GT and three variable-list shapes, the clause list from the real '
+            'For every n<=10 (thorough 20), k<=n+3, EQ/LT/GT and three variable-list shapes, the clause list from the real '
             'combine_cnf_with_requests is proved (unsat) sound, complete and uniquely extensible over all 2^n input '
             'assignments; counterexamples are replayed through cnf_is_satisfiable.',
             'Trusts z3 5.1 and CryptoMiniSat, the 150-line closure/glue in vf/sat.py, and the reading LT=fewer than k, '
